@@ -147,7 +147,7 @@ def run(ctx):
         ctx.broken.append({"kind": "correspondence", "name": "S-obj", "detail": str(e)[-800:]})
 
     # ---- S-opt: real solver vs exhaustive optimum of the specification on tiny instances
-    n = 30 if ctx.tier == "quick" else 700
+    n = 30 if ctx.tier == "quick" else 300
     tiny = [gen_tiny(ctx.rng, ctx.tier != "quick") for _ in range(n)]
     tres = common.run_worlds(tiny, probe=False)
     cases, where = [], []
